@@ -203,10 +203,14 @@ CLAIMED = {
          "dynamic table, incremental decoder with saveBuf/firstField/maxStrLen, encoder): varint round trip for every prefix size "
          "(varint_roundtrip), the dynamic table never exceeds the size permitted at that moment after add / limit change / wire update "
          "(add_bounded, setMaxSize_bounded, size_update_limited), the regenerated Huffman table is a prefix code whose tree decodes "
-         "every symbol and rejects EOS (huffman_tree_correct, eos_rejected; kernel evaluation over all 256 codes); decoder and encoder "
+         "every symbol and rejects EOS (huffman_tree_correct, eos_rejected; kernel evaluation over all 256 codes), Huffman round trip "
+         "for EVERY byte string under every admitting length limit (huffman_roundtrip: bits/bytes with EOS-prefix padding, code "
+         "words through the tree, by induction) and string-literal round trip (string_roundtrip: readString consumes exactly what "
+         "appendHpackString wrote, Huffman or raw, and decodeString returns the string); decoder and encoder "
          "are total functions. Model tied to the code by exact differentials on encoder sequences and on the decoder over encoder "
          "output / mutations / random bytes / fragmentations; ORACLES: round trip with identical tables, fragment independence"),
-   note=("PARTIAL: codec round trip and fragment independence are decided by the oracles over generated inputs, not yet by theorems. "
+   note=("PARTIAL: integer, Huffman and string-literal round trips are theorems; the field-level round trip with table synchrony and "
+         "fragment independence are decided by the oracles over generated inputs, not yet by theorems. "
          "Trusted: Lean kernel + standard axioms (decide +kernel uses kernel evaluation, no extra axioms); translator; harness. The "
          "server links x/net v0.19.0's copy of hpack, not this one. Found and fixed D6 and D12"),
    technique="Lean 4 theorems over a full executable model + regenerated tables + differential with round-trip / fragmentation oracles",
